@@ -115,7 +115,7 @@ impl SentinelRule for Rule {
 
 impl Hash for Rule {
     fn hash<H: Hasher>(&self, state: &mut H) {
-        self.id.hash(state);
+        // must agree with `PartialEq`, which ignores the `id`
         self.metric_type.hash(state);
     }
 }
